@@ -277,7 +277,7 @@ def sc_eer_voi(d, n, K, encs, subtract_current, consider_unlabeled=True, normali
 
 
 # ---------------------------------------------------------------- AnnotatorEnsembleClassifier (one member per annotator)
-def sc_annot_ensemble(d, n, A, K, encs, voting):
+def sc_annot_ensemble(d, n, A, K, encs, voting, member_classes=False):
     """symbolic run: members are stub classifiers (fitted model = function of their training data, which the ensemble
     hands over in encoded form); concrete replay: real ParzenWindowClassifier members"""
     from skactiveml.classifier.multiannotator import AnnotatorEnsembleClassifier
@@ -290,11 +290,12 @@ def sc_annot_ensemble(d, n, A, K, encs, voting):
         e = ENC[enc]
         flat = encode(d, [k for row in idx for k in row], enc)
         Y = flat.reshape(n, A)
+        mc = dict(classes=e["classes"][:K]) if member_classes else {}     # classes declared on the members as well
         if d.sym:
-            members = [(f"m{a}", models.StubClassifier(missing_label=e["missing"], n_classes=K, gen=20 + a)) for a in range(A)]
+            members = [(f"m{a}", models.StubClassifier(missing_label=e["missing"], n_classes=K, gen=20 + a, validate=member_classes, **mc)) for a in range(A)]
         else:
             from skactiveml.classifier import ParzenWindowClassifier
-            members = [(f"m{a}", ParzenWindowClassifier(missing_label=e["missing"], random_state=int(seed) + a)) for a in range(A)]
+            members = [(f"m{a}", ParzenWindowClassifier(missing_label=e["missing"], random_state=int(seed) + a, **mc)) for a in range(A)]
         clf = AnnotatorEnsembleClassifier(estimators=members, classes=e["classes"][:K], missing_label=e["missing"], voting=voting,
                                           random_state=seed)
         try:
@@ -537,7 +538,8 @@ HARNESSES = [
                  required_witnesses=("some_labeled",), product_abstraction=True, timeout_ms=30000, resample=20),
     dual_harness("annotator_ensemble", sc_annot_ensemble,
                  lambda tier: [dict(n=2, A=2, K=2, encs=e, voting=v) for v in ("hard", "soft")
-                               for e in ([PAIRS_Q[0]] if tier == "quick" else PAIRS_Q)],
+                               for e in ([PAIRS_Q[0]] if tier == "quick" else PAIRS_Q)]
+                 + [dict(n=2, A=2, K=2, encs=PAIRS_Q[0], voting="soft", member_classes=True)],
                  ["skactiveml.classifier.multiannotator._annotator_ensemble_classifier:AnnotatorEnsembleClassifier.fit",
                   "skactiveml.classifier.multiannotator._annotator_ensemble_classifier:AnnotatorEnsembleClassifier.predict_proba",
                   "skactiveml.base:SkactivemlClassifier._validate_data", "skactiveml.base:SkactivemlClassifier.predict",
